@@ -1,5 +1,6 @@
 import AnySyncModel.Tree.Loader
 import AnySyncModel.Tree.LoaderLemmas
+import AnySyncModel.Tree.ApplyLemmas
 /-!
 C09 - full-sync responses are complete, causally ordered and size-bounded.
 
@@ -158,25 +159,33 @@ example : (nextBatch (fun x => x == 1 || x == 2) 11 [⟨1, [], 5⟩, ⟨2, [1], 
 
 /-! ### applying the batches
 
-`apply_attaches_all` at full strength quantifies over the *receiver's* tree (`AnySync.Tree.add`): feeding the
-batches of `respond` in order to a receiver whose stored set is ancestor-closed and contains the removed
-changes attaches every sent change. The loader half of it is `batches_causal` + `removed_only_known`
-(every parent is sent earlier or already held). The receiver half (the wait-list `add` attaches a change
-whose parents are all attached, including across the rebuild-from-storage path of `ObjectTree`) is not
-proved in Lean; it is exercised on the real code by the harness (`apply.attach`, `apply.complete`
-oracles on copies of the requester). -/
+`cs` lists the responder's stored changes from the common snapshot on, each with its size; `toS` is its stored
+record (what the loader works on), `toC cs` gives the change back (what the receiver unmarshals). -/
+
+/-- **apply_attaches_all**, full strength: a receiver tree (`AnySync.Tree.T`, nothing pending) that holds what the
+loader withholds, what lies before the common snapshot, and for every stored change its snapshot unless that is
+stored earlier (a snapshot is an ancestor), is fed the batches of `respond` in order through `add` (= `Tree.Add`);
+afterwards it holds every sent change. -/
 def C09_apply_attaches_all_full : Prop :=
   ∀ (cs : List (Change × Nat)) (theirHeads : List Nat) (max : Nat) (t : T),
-    let cache : List SChange := cs.map (fun p => ⟨p.1.id, p.1.prevs, p.2⟩)
-    let toChange : SChange → Change := fun s =>
-      ((cs.find? (fun p => p.1.id == s.id)).map (·.1)).getD ⟨s.id, s.prevs, 0, false⟩
-    LinExt cache → (cache.map (·.id)).Nodup → t.root.isSome →
-    -- the receiver holds what is withheld, what lies before the common snapshot, and the snapshots named
-    (∀ x ∈ removedSet cache theirHeads, t.has x = true) →
-    (∀ c ∈ cache, ∀ p ∈ c.prevs, p ∉ cache.map (·.id) → t.has p = true) →
-    (∀ p ∈ cs, t.has p.1.snap = true ∨ p.1.snap ∈ cache.map (·.id)) →
-    let t' := (respond cache theirHeads max).foldl (fun t b => (add t (b.changes.map toChange)).tree) t
-    ∀ c ∈ flat (respond cache theirHeads max), t'.has c.id = true
+    LinExt (cs.map toS) → ((cs.map toS).map (·.id)).Nodup → t.root.isSome = true → t.unatt = [] →
+    (∀ x ∈ removedSet (cs.map toS) theirHeads, t.has x = true) →
+    (∀ c ∈ cs.map toS, ∀ p ∈ c.prevs, p ∉ (cs.map toS).map (·.id) → t.has p = true) →
+    (∀ l1 p l2, cs = l1 ++ p :: l2 → t.has p.1.snap = true ∨ p.1.snap ∈ l1.map (·.1.id)) →
+    ∀ c ∈ flat (respond (cs.map toS) theirHeads max),
+      ((respond (cs.map toS) theirHeads max).foldl (fun t b => (add t (b.changes.map (toC cs))).tree) t).has c.id = true
+
+theorem apply_attaches_all : C09_apply_attaches_all_full :=
+  fun cs theirHeads max t hlin hnd hroot hun hrm hbefore hsnap =>
+    apply_attaches cs theirHeads max t hlin hnd hroot hun hrm hbefore hsnap
+
+/-- non-vacuity: a receiver holding only the root is sent the diamond in batches of two and ends up with all of it -/
+example :
+    let cs : List (Change × Nat) := [(⟨1, [], 0, true⟩, 5), (⟨2, [1], 1, false⟩, 5), (⟨3, [1], 1, false⟩, 5), (⟨4, [2, 3], 1, false⟩, 5)]
+    let t : T := { root := some 1, att := [⟨1, [], 0, true⟩], lastIter := 1 }
+    ((respond (cs.map toS) [1] 11).map (·.ids) = [[2, 3], [4]]) ∧
+    (((respond (cs.map toS) [1] 11).foldl (fun t b => (add t (b.changes.map (toC cs))).tree) t).att.map (·.id) = [1, 2, 3, 4]) := by
+  decide
 
 /-- the loader half, stated on its own -/
 def C09_apply_loader_half : Prop :=
@@ -187,7 +196,7 @@ def C09_apply_loader_half : Prop :=
     ∀ s1 c s2, flat (respond cache theirHeads max) = s1 ++ c :: s2 →
       ∀ p ∈ c.prevs, held p ∨ p ∈ s1.map (·.id)
 
-/-- the loader half: every parent of a sent change is already held by the receiver or was sent earlier -/
+/-- the loader half on its own: every parent of a sent change is already held by the receiver or was sent earlier -/
 theorem apply_attaches_all_partial : C09_apply_loader_half := by
   intro cache theirHeads max held hlin hrm hbefore s1 c s2 h p hp
   rcases batches_causal cache theirHeads max hlin s1 c s2 h p hp with h1 | h1 | h1
